@@ -3,10 +3,12 @@ package conc
 import (
 	crand "crypto/rand"
 	"fmt"
+	"math/big"
 	"sort"
 	"strings"
 
 	"verif/sim/kernel"
+	"verif/sim/ref"
 )
 
 const (
@@ -113,6 +115,25 @@ func Run(run *kernel.Run, p Params) {
 			o.Seed = t.U64(st, "seed")
 			ops[ti] = append(ops[ti], o)
 		}
+	}
+	// ... and, in half of the crowds, everybody with a key object of its
+	// own (per-object slots, rings and tables that a library sizes for "a
+	// few keys" only show when more key objects are in use at once than
+	// that): the fixture gets one private key per caller
+	if crowd && !cold && t.Bool("cfg", "crowd.ownkeys") {
+		for len(spec.PrivBytes) < nTasks {
+			d := ref.ModN(ref.OS2IP(t.Bytes("fixture", "crowd.key", 32)))
+			if d.Sign() == 0 {
+				d = big.NewInt(7)
+			}
+			spec.PrivBytes = append(spec.PrivBytes, ref.I2OSP32(d))
+		}
+		for ti := range ops {
+			for _, o := range ops[ti] {
+				o.A = ti
+			}
+		}
+		run.Fault("crowd_with_a_key_object_per_caller")
 	}
 	// reach: how many (kind, objects) are performed by >= 2 tasks
 	shared := map[string]map[int]bool{}
